@@ -21,6 +21,14 @@ impl<Storage> MDK<Storage>
 where
     Storage: MdkStorageProvider,
 {
+    /// Whether the (decrypted) MLS message bytes carry a commit.
+    fn is_commit_message(message_bytes: &[u8]) -> bool {
+        MlsMessageIn::tls_deserialize_exact(message_bytes)
+            .ok()
+            .and_then(|message| message.try_into_protocol_message().ok())
+            .is_some_and(|message| message.content_type() == ContentType::Commit)
+    }
+
     /// Processes an incoming MLS message
     ///
     /// This internal function handles the MLS protocol-level message processing:
@@ -384,7 +392,10 @@ where
             Ok(result) => Ok(result),
             Err(error) => {
                 // Step 4: Handle errors with specialized recovery logic
-                self.handle_processing_error(error, event, &group)
+                // MIP-03 resolves races between competing commits: only a commit may displace
+                // the commit already applied for its epoch, never a late proposal or message.
+                let is_commit = Self::is_commit_message(&message_bytes);
+                self.handle_processing_error(error, event, &group, is_commit)
             }
         }
     }
